@@ -127,11 +127,17 @@ fn stub_from_utf8(v: &[u8]) -> Result<&str, core::str::Utf8Error> {
     if unsafe { U_OK } {
         Ok(unsafe { core::str::from_utf8_unchecked(v) })
     } else {
-        // some genuine Utf8Error value (from_utf8_mut does not go through the stubbed function)
-        let mut bad = [0xFFu8];
-        match core::str::from_utf8_mut(&mut bad) {
-            Err(e) => Err(e),
-            Ok(_) => loop {},
+        // some genuine Utf8Error value (from_utf8_mut does not go through the stubbed function):
+        // either "invalid byte" (error_len == Some(1)) or "input ends inside a sequence"
+        // (error_len == None), both with valid_up_to == 0
+        // (two calls on CONCRETE inputs: the real validator on a symbolic byte does not terminate)
+        let mut bad1 = [0xFFu8];
+        let mut bad2 = [0xC3u8];
+        let e1 = core::str::from_utf8_mut(&mut bad1);
+        let e2 = core::str::from_utf8_mut(&mut bad2);
+        match (e1, e2) {
+            (Err(a), Err(b)) => Err(if kani::any() { a } else { b }),
+            _ => loop {},
         }
     }
 }
@@ -222,15 +228,15 @@ fn serde_deserialize() {
 // Arbitrary
 // ---------------------------------------------------------------------------------------
 
-// @harness name=arbitrary_delegates props=C19 class=B bound="Unstructured over <= 4 symbolic bytes; core validator replaced by an ASCII-only validator" unwind=8 features=serde,arbitrary tier=quick fn=Arbitrary covers=arb.ok timeout=1800
+// @harness name=arbitrary_delegates props=C19 class=B bound="Unstructured over <= 3 symbolic bytes; core validator replaced by an ASCII-only validator" unwind=8 features=serde,arbitrary tier=quick fn=Arbitrary covers=arb.ok timeout=1800
 #[kani::proof]
 #[kani::stub(core::str::from_utf8, stub_from_utf8_ascii)]
 fn arbitrary_delegates() {
     use arbitrary::{Arbitrary, Unstructured};
     arm_covers();
-    let data: [u8; 4] = kani::any();
+    let data: [u8; 3] = kani::any();
     let n: usize = kani::any();
-    kani::assume(n <= 4);
+    kani::assume(n <= 3);
     let take_rest: bool = kani::any();
     let (a, b) = if take_rest {
         (LeanString::arbitrary_take_rest(Unstructured::new(&data[..n])), <&str>::arbitrary_take_rest(Unstructured::new(&data[..n])))
@@ -246,7 +252,7 @@ fn arbitrary_delegates() {
             let (x, y) = (a.as_bytes(), b.as_bytes());
             let mut ok = true;
             let mut i = 0;
-            while i < 4 {
+            while i < 3 {
                 if i < x.len() && i < y.len() && x[i] != y[i] {
                     ok = false;
                 }
